@@ -412,16 +412,12 @@ def gen_cfg(rng, cname, latlon, temporal):
         resc = 1.0
     cfg["rescale"] = resc
     # optional arguments (dimension-dependent ones relative to the effective dim of the new model)
-    import gstools  # noqa: F401
     names = {"Stable": ["alpha"], "Matern": ["nu"], "Integral": ["nu"], "Rational": ["alpha"], "SuperSpherical": ["nu"],
              "JBessel": ["nu"], "TPLGaussian": ["hurst", "len_low"], "TPLExponential": ["hurst", "len_low"],
              "TPLStable": ["hurst", "alpha", "len_low"], "TPLSimple": ["nu"]}.get(cname, [])
     for n in names:
         if n == "hurst" or rng.rand() < 0.6:
             cfg["opt"][n] = opt_values(cname, n, max(eff, 1), rng, bad=(which == 4 and n != "hurst"))
-    if tpl and which != 4:
-        # keep var_factor = len_scale / rescale a power of two when `var` is divided by it
-        pass
     if rng.rand() < 0.2 and not tpl:
         cfg["var_raw"] = pick(rng, DYAD) if which != 5 else -1.0
     if cname in INTSCALE_EXACT and rng.rand() < 0.25:
@@ -489,8 +485,6 @@ def gen_op(rng, cname, m, allow_bounds, bounds_dim):
                 v = pick(rng, cands) + (pick(rng, [-0.5, 0.5]) if bad else 0.0)
                 if name == "hurst":
                     v = pick(rng, [0.5, 1.0, 2.0])
-                if cname in TPL and name == "len_low" and v < 0 and False:
-                    continue
                 return {"k": k, "name": name, "v": float(v)}
             return {"k": k, "name": name, "v": float(opt_values(cname, name, bounds_dim, rng, bad))}
         if k == "integral_scale":
@@ -642,18 +636,11 @@ def diff_obs(real, model, fp):
         mv = model.get(k)
         if k == "opt":
             mv = [[a, b, c] for a, b, c in mv]
-        if norm(v) != norm(mv):
+        if v != mv:
             return k, v, mv
-    inb = model.get("in_bounds")
     if fp is not None and model.get("fixed_point") != fp:
         return "fixed_point (fresh construct == state)", fp, model.get("fixed_point")
-    del inb
     return None
-
-
-def norm(x):
-    """[n, d] pairs in lowest terms (the driver already reduces; python Fractions too)"""
-    return x
 
 
 # ------------------------------------------------------------------ directed cases (corpus)
@@ -785,9 +772,6 @@ def correspondence(ctx):
 
 
 # ------------------------------------------------------------------ implementation-side search (no Lean model involved)
-SEARCH_CLASSES = CLASSES
-
-
 def snapshot(m):
     d = {}
     for k, v in m.__dict__.items():
@@ -799,9 +783,6 @@ def snapshot(m):
 def restore(m, snap):
     m.__dict__.clear()
     m.__dict__.update({k: (copy.copy(v) if isinstance(v, (np.ndarray, list, dict)) else v) for k, v in snap.items()})
-
-
-PARAMS = ["var", "var_raw", "len_scale", "anis", "angles", "nugget", "rescale", "dim"]
 
 
 def values_of(m):
@@ -961,8 +942,6 @@ def sgen_op(rng, cname, m):
     if k == "nugget":
         return {"k": k, "v": float(pick(rng, [-0.5, -1e-9])) if bad else float(pick(rng, [0.0, 0.1, 0.5, 2.0]))}
     if k in ("len_scale", "integral_scale"):
-        if k == "integral_scale" and cname in ("Linear",):   # integral of a compact model in high dim is fine; keep all
-            pass
         n = int(pick(rng, [1, 1, 1, 2, 3, 4]))
         vs = [sgen_value(rng, "pos") for _ in range(n)]
         if bad:
@@ -1046,8 +1025,8 @@ def history_search(ctx, n_hist, n_ops):
 
     with stub_sft(True):
         for h in range(n_hist):
-            cname = SEARCH_CLASSES[h % len(SEARCH_CLASSES)]
-            _, latlon, temporal = CONFIGS[(h // len(SEARCH_CLASSES)) % 4]
+            cname = CLASSES[h % len(CLASSES)]
+            _, latlon, temporal = CONFIGS[(h // len(CLASSES)) % 4]
             cfg = gen_cfg(rng, cname, latlon, temporal)
             if rng.rand() < 0.5:  # non-dyadic start values
                 cfg["var"], cfg["nugget"] = float(np.exp(rng.uniform(-1, 1))), float(rng.uniform(0, 1))
@@ -1095,10 +1074,16 @@ def history_search(ctx, n_hist, n_ops):
                     restore(m, snap)
                     continue
                 # (3) reachable states are inside their bounds
-                if op["k"] != "rescale" or cname not in TPL:
-                    arg = py_in_bounds(m)
-                    if arg is not None:
-                        add("accepted-state-out-of-bounds:" + arg, f"after `{op}` the value of {arg} is outside its bounds", case)
+                arg = py_in_bounds(m)
+                if arg is not None and op["k"] == "rescale":
+                    # the rescale setter has no check_arg_bounds(); for TPL classes it moves the variance
+                    add("rescale-setter-skips-bounds-check:" + cname,
+                        f"`m.rescale = {op['v']}` accepted without error, but {arg} = {after.get(arg)} is now outside its bounds "
+                        f"{list(m.arg_bounds[arg])} (var follows rescale for TPL models); every later assignment raises", case)
+                    restore(m, snap)
+                    continue
+                if arg is not None:
+                    add("accepted-state-out-of-bounds:" + arg, f"after `{op}` the value of {arg} is outside its bounds", case)
                 # (4) derived quantities, and the documented re-normalisation rules
                 for b in derived_ok(m):
                     add("derived:" + b, f"after `{op}`: inconsistent {b}", case)
@@ -1259,6 +1244,17 @@ def _directed_search():
                          "what": f"m = {cname}({kw}); m.dim = {newdim} is accepted (bounds of nu stay {m.opt_arg_bounds['nu']}) "
                                  f"but {cname}(dim={newdim}, nu={kw['nu']}) is rejected",
                          "case": {"cls": cname, "kw": kw, "dim": newdim}})
+    # rescale setter without bounds check: on TPL models the variance follows rescale and can leave user-set bounds
+    for cname in TPL:
+        m = getattr(gs, cname)(dim=2, var=4.0, len_scale=1.0, hurst=0.5)
+        m.set_arg_bounds(var=[2.0, 6.0])
+        m.rescale = 0.25
+        ev += 1
+        if py_in_bounds(m) is not None:
+            viol.append({"key": "rescale-setter-skips-bounds-check:" + cname,
+                         "what": f"m = {cname}(dim=2, var=4, hurst=0.5); m.set_arg_bounds(var=[2, 6]); m.rescale = 0.25 is accepted without "
+                                 f"error but m.var == {float(m.var)} is outside [2, 6]; every later assignment raises",
+                         "case": {"cls": cname, "var_bounds": [2.0, 6.0], "rescale": 0.25}})
     # D7 (fixed): time anisotropy survives len_scale / integral_scale on lat-lon + temporal models
     m = gs.Exponential(latlon=True, temporal=True, anis=[1, 1, 4.0])
     m.len_scale = 2.0
@@ -1297,3 +1293,32 @@ def search(ctx, deep=False):
                        "against an independent oracle: out-of-bounds rejected, rejected => unchanged, accepted => inside bounds, "
                        "derived quantities, frame conditions, equality with a freshly constructed model; "
                        f"violation keys: {sorted(seen)}"}
+
+
+def replay(ctx, data):
+    """./check C14 --replay replays/C14-xxxx.json : re-run the recorded histories on the real code and print what happens"""
+    status = 0
+    for v in data.get("violations", []) + [b.get("case", {}) for b in data.get("broken", []) if b.get("kind") == "correspondence"]:
+        case = v.get("case", v)
+        if "cfg" not in case:
+            print("replay: directed case", v.get("key"), "-", v.get("what"))
+            status = 1
+            continue
+        cfg = dict(case["cfg"])
+        for key in ("len_scale", "anis", "angles"):
+            cfg.setdefault(key, [1.0] if key != "angles" else [0.0])
+        with stub_sft(True):
+            m, err, aw, _ = build(case["cls"], cfg)
+            print(f"replay: {case['cls']}({ {k: v for k, v in cfg.items() if not k.endswith('_scalar')} }) -> {canon_err(err) or 'ok'}")
+            if m is None:
+                continue
+            for op in case.get("ops", []):
+                before = values_of(m)
+                e, w, _ = apply_op(m, op)
+                after = values_of(m)
+                changed = sorted(k for k in after if not vclose(after[k], before.get(k)))
+                fp = fixed_point(case["cls"], m, exact=False)[0] if py_in_bounds(m) is None else None
+                print(f"  {op} -> {canon_err(e) or 'ok'}; changed: {changed}; out of bounds: {py_in_bounds(m)}; fresh-construct check: {fp}")
+                if (e is not None and changed) or (e is None and py_in_bounds(m) is not None) or fp not in (None, 0):
+                    status = 1
+    return status
